@@ -491,6 +491,7 @@ class C12(Prop):
     id = "C12"
     title = "The PDU factory returns the right PDU kind, equal to what was packed"
     lean_modules = ["SpVerif.Props.C12"]
+    thorough = False
     exhaustive_note = ("every kind x all 512 header configurations (16 width combinations x CRC x large file x mode x "
                        "caller's direction x segmentation control) through pack -> from_raw, the three inspectors and the "
                        "holder; all 9 (held kind or none) x 8 (requested kind) accessor pairs, for each way of filling the "
@@ -574,7 +575,9 @@ class C12(Prop):
         yield from_raw_case(raw, sfx[1 + i % (len(sfx) - 1)], "valid", f"{k.name}:{tag}+suffix")
         yield inspect_case(raw + sfx[(i // 2) % len(sfx)], f"{k.name}:{tag}")
         # the holder: filled by the kind's own decoder (three ways) or by the factory
-        if i % 2:
+        if len(raw) > 4096:
+            pass        # what a holder does is independent of the size of the held PDU
+        elif i % 2:
             yield Case({"op": "fac_holder", "kind": k.idx, "raw": hx(raw), "via": (i // 2) % 3}, "valid",
                        tag=f"{k.name}:{tag}")
         else:
@@ -609,7 +612,8 @@ class C12(Prop):
                     yield Case({"op": "fac_holder_raw", "raw": hx(b)}, "valid" if e == "valid" else "invalid",
                                tag=f"{k.name}:directive-octet")
         # all 256 values of octet 0 (version, type bit, flags) and of octet 3 (width codes)
-        for pos in (0, 3):
+        # (the sweep of octet 3 runs through all 64 width-code pairs itself: four base configurations per kind)
+        for pos in ((0, 3) if a["src_w"] == a["seq_w"] or self.thorough else ()):
             for v in range(256):
                 b = bytearray(raw + sfx[v % len(sfx)])
                 b[pos] = v
@@ -628,6 +632,7 @@ class C12(Prop):
 
     def cases(self, rng: random.Random, tier: str) -> Iterator[Case]:
         thorough = tier == "thorough"
+        self.thorough = thorough
         for c in self._cases(rng, thorough):
             if c is not None:
                 yield c
